@@ -1,6 +1,9 @@
 package vsyncrt
 
-import "testing"
+import (
+	"testing"
+	"time"
+)
 
 // explore enumerates every choice vector with at most maxDev deviations.
 func explore(t *testing.T, maxDev int, body func() string) (runs int, outcomes map[string]int) {
@@ -147,6 +150,88 @@ func TestSelectSendBuffered(t *testing.T) {
 		return "ok"
 	})
 	if out["broken"] != 0 {
+		t.Fatalf("outcomes %v", out)
+	}
+}
+
+// A ticker-driven flusher and a writer: the explorer must see the tick before, between and after the writes.
+func TestTickerInterleavesWithWriter(t *testing.T) {
+	runs, out := explore(t, 2, func() string {
+		var mu Mutex
+		buf, flushed := 0, ""
+		tk := NewTicker(time.Second)
+		Go(func() {
+			for {
+				_, ok := tk.C.Recv2()
+				if !ok {
+					return
+				}
+				mu.Lock()
+				flushed += string(rune('0' + buf))
+				buf = 0
+				mu.Unlock()
+			}
+		})
+		for i := 0; i < 2; i++ {
+			mu.Lock()
+			buf++
+			mu.Unlock()
+			if i == 0 {
+				Quiesce() // a timer that only waits for the clock does not keep the program busy
+				Advance(time.Second)
+			}
+		}
+		Quiesce()
+		Advance(time.Second)
+		Quiesce() // a due one does
+		mu.Lock()
+		defer mu.Unlock()
+		return flushed
+	})
+	t.Logf("runs=%d outcomes=%v", runs, out)
+	if len(out) != 2 || out["11"] == 0 || out["20"] == 0 {
+		t.Fatalf("outcomes %v, want the tick before and after the second write", out)
+	}
+}
+
+// Time passes when everybody waits: a sleeper is woken although nobody advances the clock, timers fire in due order.
+func TestSleepAndAfterFunc(t *testing.T) {
+	_, out := explore(t, 1, func() string {
+		order := ""
+		var mu Mutex
+		done := MakeChan[int](2)
+		AfterFunc(3*time.Second, func() { mu.Lock(); order += "f"; mu.Unlock(); done.Send(1) })
+		Go(func() { Sleep(time.Second); mu.Lock(); order += "s"; mu.Unlock(); done.Send(1) })
+		start := Now()
+		done.Recv()
+		done.Recv()
+		if Since(start) != 3*time.Second {
+			return "clock " + Since(start).String()
+		}
+		return order
+	})
+	if len(out) != 1 || out["sf"] == 0 {
+		t.Fatalf("outcomes %v", out)
+	}
+}
+
+// A stopped timer never fires; a reset one fires again.
+func TestTimerStopReset(t *testing.T) {
+	_, out := explore(t, 1, func() string {
+		tm := NewTimer(time.Second)
+		if !tm.Stop() {
+			return "stop reported an expired timer"
+		}
+		Advance(5 * time.Second)
+		Quiesce()
+		if tm.C.Len() != 0 {
+			return "stopped timer fired"
+		}
+		tm.Reset(time.Second)
+		tm.C.Recv()
+		return "ok"
+	})
+	if len(out) != 1 || out["ok"] == 0 {
 		t.Fatalf("outcomes %v", out)
 	}
 }
